@@ -12,7 +12,7 @@ use pnet::util::MacAddr;
 use crate::kshim::collections::HashSet;
 use std::net::{IpAddr, Ipv4Addr, Ipv6Addr};
 
-fn ipv6_case(proto: Option<u8>, m: usize, n: usize) {
+fn ipv6_case(proto: Option<u8>, m: usize, n: usize, lists: bool) {
     let mut buf: [u8; 64] = kani::any();
     match proto {
         Some(p) => buf[6] = p,
@@ -38,8 +38,8 @@ fn ipv6_case(proto: Option<u8>, m: usize, n: usize) {
     s_set.insert(IpAddr::V6(a6));
     let mut d_set = HashSet::new();
     d_set.insert(IpAddr::V6(d6));
-    let s_on: bool = kani::any();
-    let d_on: bool = kani::any();
+    let s_on: bool = if lists { kani::any() } else { false };
+    let d_on: bool = if lists { kani::any() } else { false };
     let mut masscanned = ms_plain([0, 0], any_mac());
     if s_on {
         masscanned.self_ip_list = Some(&s_set);
@@ -110,6 +110,11 @@ fn ipv6_case(proto: Option<u8>, m: usize, n: usize) {
     if i != ck && i != ck + 1 && !(buf[6] == 17 && (i == 4 || i == 5)) {
         assert!(l4[i] == rec.bytes[i], "C03: transport bytes altered by the IPv6 layer");
     }
+    if lists {
+        kani::cover!(true, "reply emitted");
+        kani::cover!(is_na, "neighbour advertisement emitted");
+        return;
+    }
     assert!(csum_ok(pseudo6(&b[8..24], &b[24..40], buf[6], n), l4), "C04: transport checksum invalid over the IPv6 pseudo-header");
     if buf[6] == 17 {
         assert!(((l4[4] as usize) << 8 | l4[5] as usize) == n, "C04: UDP length is not the actual length");
@@ -127,34 +132,33 @@ fn verif_known_c02_echo() -> bool {
 }
 
 //# harness: c04_ipv6_tcp_20
-//# props: C04 C03 C02 C01
-//# tier: quick
+//# props: C04 C03 C01
+//# tier: thorough
+//# timeout: 1400
 //# encodes: layer_3::ipv6::repl
 //# encodes: pnet_packet checksum helpers (icmpv6::checksum, tcp::ipv6_checksum, udp::ipv6_checksum)
-//# bounds: 40-byte IPv6 request header symbolic (version, traffic class, flow label, payload length, hop limit free; source and destination address: octets 0, 14, 15 symbolic, others zero), next header = TCP, 20 transport bytes in the request; layer-4 reply of 20 arbitrary bytes or silence (ICMPv6: echo-style reply, or type 136 + solicited target); self-IP list absent or {a4,a6} symbolic; deny list absent or {d6} symbolic
+//# bounds: 40-byte IPv6 request header symbolic (version, traffic class, flow label, payload length, hop limit free; source and destination address: octets 0, 14, 15 symbolic, others zero), next header = TCP, 20 transport bytes in the request; layer-4 reply of 20 arbitrary bytes or silence (ICMPv6: echo-style reply, or type 136 + solicited target); no self-IP list and no deny list (the scope filters are decided by c02_ipv6_scope_* and *_other_proto)
 //# stubs: layer_4::{icmpv6,tcp,udp}::repl -> None or a transport packet of 20 arbitrary bytes (UDP: length field = 20; ICMPv6 NA: the returned target belongs to the self-IP list when one is configured - lemma c05_nd_*)
 //# out: extension headers (not parsed by the implementation); other reply lengths
 //# known: c02.icmpv6_echo_foreign_destination
 //# known: c04.udp6_zero_checksum
 //# cover: reply emitted
 //# cover: layer 4 silent
-//# cover: dropped: destination not in self-IP list
-//# cover: dropped: source on deny list
 #[kani::proof]
 #[kani::unwind(44)]
 #[kani::stub(crate::layer_4::icmpv6::repl, crate::verif_util::l4_icmpv6_stub)]
 #[kani::stub(crate::layer_4::tcp::repl, crate::verif_util::l4_tcp_stub)]
 #[kani::stub(crate::layer_4::udp::repl, crate::verif_util::l4_udp_stub)]
 fn c04_ipv6_tcp_20() {
-    ipv6_case(Some(6), 20, 20)
+    ipv6_case(Some(6), 20, 20, false)
 }
 
 //# harness: c04_ipv6_tcp_23
-//# props: C04 C03 C02
+//# props: C04 C03
 //# tier: thorough
 //# encodes: layer_3::ipv6::repl
 //# encodes: pnet_packet checksum helpers (icmpv6::checksum, tcp::ipv6_checksum, udp::ipv6_checksum)
-//# bounds: 40-byte IPv6 request header symbolic (version, traffic class, flow label, payload length, hop limit free; source and destination address: octets 0, 14, 15 symbolic, others zero), next header = TCP, 21 transport bytes in the request; layer-4 reply of 23 arbitrary bytes or silence (ICMPv6: echo-style reply, or type 136 + solicited target); self-IP list absent or {a4,a6} symbolic; deny list absent or {d6} symbolic
+//# bounds: 40-byte IPv6 request header symbolic (version, traffic class, flow label, payload length, hop limit free; source and destination address: octets 0, 14, 15 symbolic, others zero), next header = TCP, 21 transport bytes in the request; layer-4 reply of 23 arbitrary bytes or silence (ICMPv6: echo-style reply, or type 136 + solicited target); no self-IP list and no deny list (the scope filters are decided by c02_ipv6_scope_* and *_other_proto)
 //# stubs: layer_4::{icmpv6,tcp,udp}::repl -> None or a transport packet of 23 arbitrary bytes (UDP: length field = 23; ICMPv6 NA: the returned target belongs to the self-IP list when one is configured - lemma c05_nd_*)
 //# out: extension headers (not parsed by the implementation); other reply lengths
 //# known: c02.icmpv6_echo_foreign_destination
@@ -166,15 +170,16 @@ fn c04_ipv6_tcp_20() {
 #[kani::stub(crate::layer_4::tcp::repl, crate::verif_util::l4_tcp_stub)]
 #[kani::stub(crate::layer_4::udp::repl, crate::verif_util::l4_udp_stub)]
 fn c04_ipv6_tcp_23() {
-    ipv6_case(Some(6), 21, 23)
+    ipv6_case(Some(6), 21, 23, false)
 }
 
 //# harness: c04_ipv6_udp_9
-//# props: C04 C03 C02 C01
-//# tier: quick
+//# props: C04 C03 C01
+//# tier: thorough
+//# timeout: 1400
 //# encodes: layer_3::ipv6::repl
 //# encodes: pnet_packet checksum helpers (icmpv6::checksum, tcp::ipv6_checksum, udp::ipv6_checksum)
-//# bounds: 40-byte IPv6 request header symbolic (version, traffic class, flow label, payload length, hop limit free; source and destination address: octets 0, 14, 15 symbolic, others zero), next header = UDP, 8 transport bytes in the request; layer-4 reply of 9 arbitrary bytes or silence (ICMPv6: echo-style reply, or type 136 + solicited target); self-IP list absent or {a4,a6} symbolic; deny list absent or {d6} symbolic
+//# bounds: 40-byte IPv6 request header symbolic (version, traffic class, flow label, payload length, hop limit free; source and destination address: octets 0, 14, 15 symbolic, others zero), next header = UDP, 8 transport bytes in the request; layer-4 reply of 9 arbitrary bytes or silence (ICMPv6: echo-style reply, or type 136 + solicited target); no self-IP list and no deny list (the scope filters are decided by c02_ipv6_scope_* and *_other_proto)
 //# stubs: layer_4::{icmpv6,tcp,udp}::repl -> None or a transport packet of 9 arbitrary bytes (UDP: length field = 9; ICMPv6 NA: the returned target belongs to the self-IP list when one is configured - lemma c05_nd_*)
 //# out: extension headers (not parsed by the implementation); other reply lengths
 //# known: c02.icmpv6_echo_foreign_destination
@@ -187,15 +192,15 @@ fn c04_ipv6_tcp_23() {
 #[kani::stub(crate::layer_4::tcp::repl, crate::verif_util::l4_tcp_stub)]
 #[kani::stub(crate::layer_4::udp::repl, crate::verif_util::l4_udp_stub)]
 fn c04_ipv6_udp_9() {
-    ipv6_case(Some(17), 8, 9)
+    ipv6_case(Some(17), 8, 9, false)
 }
 
 //# harness: c04_ipv6_udp_12
-//# props: C04 C03 C02
+//# props: C04 C03
 //# tier: thorough
 //# encodes: layer_3::ipv6::repl
 //# encodes: pnet_packet checksum helpers (icmpv6::checksum, tcp::ipv6_checksum, udp::ipv6_checksum)
-//# bounds: 40-byte IPv6 request header symbolic (version, traffic class, flow label, payload length, hop limit free; source and destination address: octets 0, 14, 15 symbolic, others zero), next header = UDP, 10 transport bytes in the request; layer-4 reply of 12 arbitrary bytes or silence (ICMPv6: echo-style reply, or type 136 + solicited target); self-IP list absent or {a4,a6} symbolic; deny list absent or {d6} symbolic
+//# bounds: 40-byte IPv6 request header symbolic (version, traffic class, flow label, payload length, hop limit free; source and destination address: octets 0, 14, 15 symbolic, others zero), next header = UDP, 10 transport bytes in the request; layer-4 reply of 12 arbitrary bytes or silence (ICMPv6: echo-style reply, or type 136 + solicited target); no self-IP list and no deny list (the scope filters are decided by c02_ipv6_scope_* and *_other_proto)
 //# stubs: layer_4::{icmpv6,tcp,udp}::repl -> None or a transport packet of 12 arbitrary bytes (UDP: length field = 12; ICMPv6 NA: the returned target belongs to the self-IP list when one is configured - lemma c05_nd_*)
 //# out: extension headers (not parsed by the implementation); other reply lengths
 //# known: c02.icmpv6_echo_foreign_destination
@@ -207,15 +212,16 @@ fn c04_ipv6_udp_9() {
 #[kani::stub(crate::layer_4::tcp::repl, crate::verif_util::l4_tcp_stub)]
 #[kani::stub(crate::layer_4::udp::repl, crate::verif_util::l4_udp_stub)]
 fn c04_ipv6_udp_12() {
-    ipv6_case(Some(17), 10, 12)
+    ipv6_case(Some(17), 10, 12, false)
 }
 
 //# harness: c04_ipv6_icmp_8
-//# props: C04 C03 C02 C01
-//# tier: quick
+//# props: C04 C03 C01
+//# tier: thorough
+//# timeout: 1400
 //# encodes: layer_3::ipv6::repl
 //# encodes: pnet_packet checksum helpers (icmpv6::checksum, tcp::ipv6_checksum, udp::ipv6_checksum)
-//# bounds: 40-byte IPv6 request header symbolic (version, traffic class, flow label, payload length, hop limit free; source and destination address: octets 0, 14, 15 symbolic, others zero), next header = ICMPv6, 8 transport bytes in the request; layer-4 reply of 8 arbitrary bytes or silence (ICMPv6: echo-style reply, or type 136 + solicited target); self-IP list absent or {a4,a6} symbolic; deny list absent or {d6} symbolic
+//# bounds: 40-byte IPv6 request header symbolic (version, traffic class, flow label, payload length, hop limit free; source and destination address: octets 0, 14, 15 symbolic, others zero), next header = ICMPv6, 8 transport bytes in the request; layer-4 reply of 8 arbitrary bytes or silence (ICMPv6: echo-style reply, or type 136 + solicited target); no self-IP list and no deny list (the scope filters are decided by c02_ipv6_scope_* and *_other_proto)
 //# stubs: layer_4::{icmpv6,tcp,udp}::repl -> None or a transport packet of 8 arbitrary bytes (UDP: length field = 8; ICMPv6 NA: the returned target belongs to the self-IP list when one is configured - lemma c05_nd_*)
 //# out: extension headers (not parsed by the implementation); other reply lengths
 //# known: c02.icmpv6_echo_foreign_destination
@@ -229,15 +235,15 @@ fn c04_ipv6_udp_12() {
 #[kani::stub(crate::layer_4::tcp::repl, crate::verif_util::l4_tcp_stub)]
 #[kani::stub(crate::layer_4::udp::repl, crate::verif_util::l4_udp_stub)]
 fn c04_ipv6_icmp_8() {
-    ipv6_case(Some(58), 8, 8)
+    ipv6_case(Some(58), 8, 8, false)
 }
 
 //# harness: c04_ipv6_icmp_33
-//# props: C04 C03 C02
+//# props: C04 C03
 //# tier: thorough
 //# encodes: layer_3::ipv6::repl
 //# encodes: pnet_packet checksum helpers (icmpv6::checksum, tcp::ipv6_checksum, udp::ipv6_checksum)
-//# bounds: 40-byte IPv6 request header symbolic (version, traffic class, flow label, payload length, hop limit free; source and destination address: octets 0, 14, 15 symbolic, others zero), next header = ICMPv6, 24 transport bytes in the request; layer-4 reply of 33 arbitrary bytes or silence (ICMPv6: echo-style reply, or type 136 + solicited target); self-IP list absent or {a4,a6} symbolic; deny list absent or {d6} symbolic
+//# bounds: 40-byte IPv6 request header symbolic (version, traffic class, flow label, payload length, hop limit free; source and destination address: octets 0, 14, 15 symbolic, others zero), next header = ICMPv6, 24 transport bytes in the request; layer-4 reply of 33 arbitrary bytes or silence (ICMPv6: echo-style reply, or type 136 + solicited target); no self-IP list and no deny list (the scope filters are decided by c02_ipv6_scope_* and *_other_proto)
 //# stubs: layer_4::{icmpv6,tcp,udp}::repl -> None or a transport packet of 33 arbitrary bytes (UDP: length field = 33; ICMPv6 NA: the returned target belongs to the self-IP list when one is configured - lemma c05_nd_*)
 //# out: extension headers (not parsed by the implementation); other reply lengths
 //# known: c02.icmpv6_echo_foreign_destination
@@ -250,7 +256,7 @@ fn c04_ipv6_icmp_8() {
 #[kani::stub(crate::layer_4::tcp::repl, crate::verif_util::l4_tcp_stub)]
 #[kani::stub(crate::layer_4::udp::repl, crate::verif_util::l4_udp_stub)]
 fn c04_ipv6_icmp_33() {
-    ipv6_case(Some(58), 24, 33)
+    ipv6_case(Some(58), 24, 33, false)
 }
 
 //# harness: c02_ipv6_other_proto
@@ -270,7 +276,7 @@ fn c04_ipv6_icmp_33() {
 #[kani::stub(crate::layer_4::tcp::repl, crate::verif_util::l4_tcp_stub)]
 #[kani::stub(crate::layer_4::udp::repl, crate::verif_util::l4_udp_stub)]
 fn c02_ipv6_other_proto() {
-    ipv6_case(None, 4, 8)
+    ipv6_case(None, 4, 8, true)
 }
 
 //# harness: c01_ipv6_tcp_short
@@ -290,7 +296,7 @@ fn c02_ipv6_other_proto() {
 #[kani::stub(crate::layer_4::tcp::repl, crate::verif_util::l4_tcp_stub)]
 #[kani::stub(crate::layer_4::udp::repl, crate::verif_util::l4_udp_stub)]
 fn c01_ipv6_tcp_short() {
-    ipv6_case(Some(6), 19, 20)
+    ipv6_case(Some(6), 19, 20, true)
 }
 
 //# harness: c01_ipv6_udp_short
@@ -310,7 +316,7 @@ fn c01_ipv6_tcp_short() {
 #[kani::stub(crate::layer_4::tcp::repl, crate::verif_util::l4_tcp_stub)]
 #[kani::stub(crate::layer_4::udp::repl, crate::verif_util::l4_udp_stub)]
 fn c01_ipv6_udp_short() {
-    ipv6_case(Some(17), 7, 8)
+    ipv6_case(Some(17), 7, 8, true)
 }
 
 //# harness: c01_ipv6_icmp_short
@@ -330,7 +336,7 @@ fn c01_ipv6_udp_short() {
 #[kani::stub(crate::layer_4::tcp::repl, crate::verif_util::l4_tcp_stub)]
 #[kani::stub(crate::layer_4::udp::repl, crate::verif_util::l4_udp_stub)]
 fn c01_ipv6_icmp_short() {
-    ipv6_case(Some(58), 3, 8)
+    ipv6_case(Some(58), 3, 8, true)
 }
 
 fn ipv6_events(proto: Option<u8>, m: usize, n: usize) {
@@ -394,4 +400,46 @@ fn c20_ipv6_events_udp() {
 #[kani::stub(crate::layer_4::udp::repl, crate::verif_util::l4_udp_stub)]
 fn c20_ipv6_events_icmp() {
     ipv6_events(Some(58), 8, 8)
+}
+
+//# harness: c02_ipv6_scope_icmp
+//# props: C02 C03 C01
+//# tier: thorough
+//# timeout: 1400
+//# encodes: layer_3::ipv6::repl (scope filters and address mirroring)
+//# bounds: IPv6 request header symbolic, protocol 58, 8 transport bytes; layer-4 reply of 8 arbitrary bytes or silence; self-IP list absent or {a4,a6} symbolic; deny list absent or one symbolic address; transport checksums are NOT asserted here (decided by c04_ipv6_*)
+//# stubs: layer-4 entry points -> None or a transport packet of 8 arbitrary bytes
+//# known: c02.icmpv6_echo_foreign_destination
+//# known: c04.udp6_zero_checksum
+//# cover: reply emitted
+//# cover: dropped: source on deny list
+//# cover: neighbour advertisement emitted
+#[kani::proof]
+#[kani::unwind(44)]
+#[kani::stub(crate::layer_4::icmpv6::repl, crate::verif_util::l4_icmpv6_stub)]
+#[kani::stub(crate::layer_4::tcp::repl, crate::verif_util::l4_tcp_stub)]
+#[kani::stub(crate::layer_4::udp::repl, crate::verif_util::l4_udp_stub)]
+fn c02_ipv6_scope_icmp() {
+    ipv6_case(Some(58), 8, 8, true)
+}
+
+//# harness: c02_ipv6_scope_udp
+//# props: C02 C03 C01
+//# tier: thorough
+//# timeout: 1400
+//# encodes: layer_3::ipv6::repl (scope filters and address mirroring)
+//# bounds: IPv6 request header symbolic, protocol 17, 8 transport bytes; layer-4 reply of 8 arbitrary bytes or silence; self-IP list absent or {a4,a6} symbolic; deny list absent or one symbolic address; transport checksums are NOT asserted here (decided by c04_ipv6_*)
+//# stubs: layer-4 entry points -> None or a transport packet of 8 arbitrary bytes
+//# known: c02.icmpv6_echo_foreign_destination
+//# known: c04.udp6_zero_checksum
+//# cover: reply emitted
+//# cover: dropped: destination not in self-IP list
+//# cover: dropped: source on deny list
+#[kani::proof]
+#[kani::unwind(44)]
+#[kani::stub(crate::layer_4::icmpv6::repl, crate::verif_util::l4_icmpv6_stub)]
+#[kani::stub(crate::layer_4::tcp::repl, crate::verif_util::l4_tcp_stub)]
+#[kani::stub(crate::layer_4::udp::repl, crate::verif_util::l4_udp_stub)]
+fn c02_ipv6_scope_udp() {
+    ipv6_case(Some(17), 8, 8, true)
 }
